@@ -1440,7 +1440,7 @@ fn main() {
     let nchunks = cases.len().div_ceil(chunk);
     let started = std::time::Instant::now();
     // a safety net for an overloaded machine; a normal run finishes far below it
-    let cap_s: u64 = args.tier.pick(50, 1100);
+    let cap_s: u64 = (args.tier.pick(150.0, 1100.0) * vcore::budget_scale()) as u64;
     let results = vcore::par_for(nchunks, vcore::ncores(), |ci| {
         let mut st = Stats::default();
         let mut viol: Vec<(String, String, usize, Value)> = vec![];
